@@ -23,6 +23,21 @@ CLAIMED = {
         note=TRUST + "Shapes bounded (legs m<=5/8, sectors n<=3/4); non-integer constructor arguments only by a bounded enumerated check.",
         technique='AST-to-SMT symbolic execution of the real functions against sidecar contracts; z3 with cvc5 fallback; native replay of counter-models',
     ),
+    'C02': dict(
+        category='proof',
+        text=("Representation invariant wf(tensor) (blocks unique and sorted, selection rule under the group law, per-leg dimension "
+              "consistency, slices accumulate, storage size, fusion history vs signature, permutation/meta-fusion bookkeeping) as a "
+              "contract on the REAL code of conj/conj_blocks/flip_signature/flip_charges/transpose/consume_transpose/moveaxis/add_leg/"
+              "remove_leg/diag/drop_leg_history/copy/clone, tensordot under all three policies (through _common_inds, _meta_merge_to_matrix, "
+              "_meta_fuse_hard, _meta_tensordot_f2m/_fc/_nf, _meta_unmerge_matrix), add/sub (_pre_addition, _meta_addition), vdot, trace, "
+              "broadcast: requires wf(operands) ensures wf(result), result charge as algebra dictates, result blocks exactly those the "
+              "operation's definition gives, and every backend kernel precondition (shape-valid, in-bounds, output fully written). "
+              "Discharged by z3/cvc5 for ALL charges, dimensions, offsets, tensor charges at each enumerated container shape; by induction "
+              "over call sequences every tensor reachable through these operations is well-formed."),
+        design_ref='DESIGN.md §5 C02',
+        note=TRUST + "Backend kernels replaced by size/precondition contracts (floating-point content not modelled). Shapes bounded (blocks<=2/3, native rank<=3/4). Hard-fused operands (masks), svd/qr/eigh, fuse/unfuse covered in C03/C04 packs, not here.",
+        technique='AST-to-SMT symbolic execution of the real metadata code against the wf contract; z3 with cvc5 fallback; native replay of counter-models',
+    ),
     'C20': dict(
         category='proof',
         text=("Contracts on the real geometry classes (SquareLattice, CheckerboardLattice, RectangularUnitcell, TriangularLattice) "
